@@ -67,7 +67,7 @@ P = {
  ["patterns registered through Container.Handle/HandleWithFilter are forgotten by Remove (D12, documented finding; repair needs a new field)", "ServeMux's own longest-pattern matching"],
  TECH),
 "C12": (True,
- "Deductive proof of lock discipline as guarded-by obligations: every read or write of Container.webServices/ServeMux and WebService.routes in the functions under contract happens with the declared lock held in the right mode, locks are balanced on every exit (including panics raised by user code during route selection), and no function under contract acquires a lock it already holds.",
+ "Deductive proof of lock discipline as guarded-by obligations: every read or write of Container.webServices/ServeMux and WebService.routes in the functions under contract happens with the declared lock held in the right mode, locks are balanced on every exit (including panics raised by user code during route selection), no function under contract acquires a lock it already holds, and dispatch runs filters, the route function and the recover handler without the services lock (so a handler that blocks or re-enters the container cannot wedge a pending Add/Remove and the readers queued behind it).",
  COMMON_ASSUME + "sync.RWMutex modelled as per-goroutine ghost state (not re-entrant); interference from other goroutines is havoc of guarded state while the lock is not held.",
  ["real schedules and the Go memory model (a lock-discipline proof, not a race detector)", "exported fields users may touch without the lock"],
  TECH + ", guarded-by obligations"),
@@ -82,12 +82,12 @@ P = {
  ["that the compiled expressions themselves match p and p+'/' alike (regular-expression semantics; covered only by the bounded stand-in pool)", "ServeMux redirect behaviour for trailing slashes"],
  TECH + ", inductive lemmas"),
 "C15": (True,
- "Deductive proof that Response.Write adds exactly the count the underlying writer accepted and returns its results unchanged, that WriteHeader records and forwards the status once, of StatusCode/ContentLength, and that CompressingResponseWriter forwards Write/WriteHeader/Header to the right target, over a ghost model of an arbitrary http.ResponseWriter.",
+ "Deductive proof that Response.Write adds exactly the count the underlying writer accepted and returns its results unchanged, that WriteHeader records and forwards the status once, of StatusCode/ContentLength, that CompressingResponseWriter forwards Write/WriteHeader/Header to the right target, that WriteHeaderAndEntity records the 406 it sends when no writer is available and otherwise hands the value to the chosen writer exactly once, and that writeXML/writeJSON record the status they send and — where they write the document themselves (pretty printing) — return the error of the last Write; all over a ghost model of an arbitrary http.ResponseWriter.",
  COMMON_ASSUME + "assumed contract of http.ResponseWriter (Write accepts a prefix; error-free Write accepts all).",
- ["WriteEntity/WriteAsJson/WriteError* paths (encoders are dependencies)", "lemma over call sequences"],
+ ["WriteAsJson/WriteAsXml/WriteError* paths and the streaming (non-pretty) encoders (dependencies; their writes through the Response are assumed, A-RT)", "lemma over call sequences"],
  TECH),
 "C16": (True,
- "Deductive proof of the framework glue only: Request.ReadEntity acquires at most one pooled gzip reader, Resets it onto the request body before the entity reader is called (so no state of an earlier body survives), releases it on every exit, returns the zlib/lookup/decoder error instead of panicking; accessorAt returns the exactly registered accessor, else one whose registered type occurs in the Content-Type value (parameters and spacing tolerated, every map iteration order covered), else nothing — and nothing only if no registered type occurs in it.",
+ "Deductive proof of the framework glue only: Request.ReadEntity acquires at most one pooled gzip reader, Resets it onto the request body before the entity reader is called (so no state of an earlier body survives), releases it on every exit, returns the zlib/lookup/decoder error instead of panicking; accessorAt returns the exactly registered accessor, else one whose registered type occurs in the Content-Type value (parameters and spacing tolerated, every map iteration order covered), else nothing — and nothing only if no registered type occurs in it; entityJSONAccess.Read switches the decoder to json.Number before decoding, whatever the target type.",
  COMMON_ASSUME + "A-RT/A-CODEC: encoding/json, encoding/xml, compress/gzip and compress/zlib are dependencies (trusted: decode errors are returned, Reset forgets earlier state).",
  ["write-then-read equality of values (a property of encoding/json and encoding/xml, not of this package)", "behaviour of the codecs on corrupt input"],
  TECH),
@@ -102,7 +102,7 @@ P = {
  ["the agreement lemma itself (same route, same parameters, same status for every table of the common fragment): it needs A-JSR for all strings, not a pool", "D9 (rankings differ: static tokens vs literal characters), documented"],
  TECH),
 "C19": (True,
- "Deductive frame proofs: each function under contract on the dispatch path changes only the locations in its modifies clause — route tables, Produces/Consumes slices, configuration and other requests' objects are untouched (selectRoutes, SelectRoute of both routers, Routes copies, ExtractParameters, NewRequest/NewResponse, wrapRequestResponse, dispatch, CORS Filter/doPreflightRequest, OPTIONSFilter, computeAllowedMethods); the CORS filter value is not mutated by a request.",
+ "Deductive frame proofs: each function under contract on the dispatch path changes only the locations in its modifies clause — route tables, Produces/Consumes slices, configuration and other requests' objects are untouched (selectRoutes, SelectRoute of both routers, Routes copies, ExtractParameters, NewRequest/NewResponse, wrapRequestResponse, dispatch, CORS Filter/doPreflightRequest, OPTIONSFilter, computeAllowedMethods); the CORS filter value is not mutated by a request; the Accept ranking (sortedMimes) and the entity writer's choice are functions of the header, the Produces list and the registry alone — not of the trace switch or of earlier requests.",
  COMMON_ASSUME + "A-CB (callbacks change only the objects handed to them), typed heaps (no unsafe aliasing).",
  ["functions not under contract", "concurrent interleavings"],
  TECH + ", frame conditions"),
